@@ -361,6 +361,13 @@ def run_cmd(case):
                     fh.write(b"someone else's file")
                 rec["target_existed"] = True
             extra[os.path.abspath(target)] = "N"
+            if case.get("payload_beside"):      # the usual layout: the payload lies next to its metafile
+                beside = os.path.join(work, "o", tree["name"])
+                if os.path.isdir(root):
+                    shutil.copytree(root, beside, symlinks=True)
+                else:
+                    shutil.copyfile(root, beside)
+                extra[os.path.abspath(beside)] = "K"
             argv = ["rename", meta]
         role0 = _role_fn(meta, extra)
 
